@@ -145,7 +145,7 @@ InitVal(T) ==
       [] T = TBuiltin("str") -> Str(<<"a">>)
       [] T = TAny -> Null
       [] T = TSat("small") -> I1
-Configs == IF Wide THEN {<<a, b>> : a \in 1..6, b \in 1..6}
+Configs == IF Wide THEN {<<a, b>> : a \in 1..6, b \in {1, 3, 5}}
            ELSE {<<1, 2>>, <<2, 1>>, <<3, 5>>, <<4, 1>>, <<5, 3>>, <<6, 1>>, <<1, 1>>, <<3, 4>>}
 AVals == {I1, IntV(5), Flt(3, 2), Str(<<"a">>), List(<<I1>>), Null}
 Actions ==
